@@ -621,6 +621,60 @@ def run_e2e(ctx, host, nrelease, release, tooltags):
         j["mutations"] = [tuple(m) for m in j.get("mutations", [])]
         jobs = [j]
 
+    # a stand-in for the go tool (given with -gocmd): records the platform variables every go command is given, can fail the
+    # k-th call of a subcommand with a message (C10_GOPLAN = "sub:k:message;..."), and otherwise runs the real go tool
+    gowrap = os.path.join(ctx.tmp, "gowrap.sh")
+    with open(gowrap, "w") as fh:
+        fh.write("""#!/bin/sh
+sub="$1"
+k=1
+if [ -n "$C10_GOLOG" ]; then
+  k=$(grep -c "^$sub	" "$C10_GOLOG" 2>/dev/null); k=$((k+1))
+  printf '%s\\t%s\\t%s\\t%s\\n' "$sub" "${GOOS-<unset>}" "${GOARCH-<unset>}" "${CGO_ENABLED-<unset>}" >> "$C10_GOLOG"
+fi
+oldifs=$IFS; IFS=';'
+for d in $C10_GOPLAN; do
+  psub=${d%%:*}; rest=${d#*:}; pk=${rest%%:*}; msg=${rest#*:}
+  if [ "$psub" = "$sub" ] && [ "$pk" = "$k" ]; then echo "$msg" >&2; exit 1; fi
+done
+IFS=$oldifs
+exec go "$@"
+""")
+    os.chmod(gowrap, 0o755)
+    if not (ctx.replay and ctx.replay.get("case", {}).get("e2e")):
+        BUSY = "open /tmp/x/mage_out: text file busy"
+        plans = ["", "build:1:" + BUSY, "", "build:1:link: injected failure", "", "env:1:injected failure of go env", "",
+                 "build:2:go build: The process cannot access the file because it is being used by another process.", "version:2:injected failure of go version"]
+        k = 0
+        for j in jobs:
+            if j["kind"] in ("layout", "compile"):
+                j["gocmd"] = True
+                j["goplan"] = plans[k % len(plans)]
+                k += 1
+        # symbolic links as a layout dimension; the choice is made by the SPELLED base name (`magefiles`), never by where a link leads
+        M = ("tag", "mage")
+        other_os = "plan9" if host[0] != "plan9" else "windows"
+        def D(fs):
+            return {"id": -1, "files": sorted(fs, key=lambda f: f["name"].encode()), "mixed": False}
+        def subdir():
+            return D([e2e_file("targets.go", M, "Sub"), e2e_file("plain.go", None, "Plain"), e2e_file("x_%s.go" % other_os, None, "Otheros")])
+        def ordinary():
+            return D([e2e_file("magefile.go", M, "Build"), e2e_file("lib.go", None, "Leaked"), e2e_file("util.go", ("not", ("tag", other_os)), "Util")])
+        link_jobs = [
+            {"top": D([e2e_file("lib.go", None, "Leaked")]), "sub": subdir(), "links": {"sub": "other-name"}},                    # magefiles -> ../common/buildscripts
+            {"top": D([]), "sub": subdir(), "links": {"sub": "same-name"}},                                                        # magefiles -> elsewhere/shared/magefiles
+            {"top": ordinary(), "sub": subdir(), "links": {"sub": "other-name"}},                                                  # the directory's own magefiles win
+            {"top": ordinary(), "sub": None, "links": {"real_name_magefiles": True, "project_link": "work"}, "via": ["cwd", "work"]},   # real name magefiles, entered through a link
+            {"top": ordinary(), "sub": None, "links": {"real_name_magefiles": True, "project_link": "work"}, "via": ["d", "work"]},     # ... or -d link
+            {"top": ordinary(), "sub": None, "links": {"real_name_magefiles": True}, "via": ["d", "magefiles"], "top_named": True},    # -d .../magefiles spelled: a magefiles directory
+            {"top": ordinary(), "sub": None, "links": {"real_name_magefiles": True}},                                              # started inside it ("."): an ordinary directory
+            {"top": ordinary(), "sub": None, "links": {"project_link": "magefiles"}, "via": ["d", "magefiles"], "top_named": True},     # a link SPELLED magefiles to an ordinary directory
+            {"top": ordinary(), "sub": None, "links": {"files": ["magefile.go", "lib.go"]}},                                       # magefiles that are symlinks
+            {"top": D([]), "sub": subdir(), "links": {"files": ["magefiles/plain.go", "magefiles/targets.go"]}},
+        ]
+        for n, lj in enumerate(link_jobs):
+            jobs.append(dict(lj, kind="links", env=envs[n % len(envs)], plat=host, flags=("", ""), gocmd=(n % 2 == 0), goplan=""))
+
     def layout_at(j, upto):
         """(top, sub) after the first `upto` mutations of the job's history"""
         top = {"id": -1, "mixed": False, "files": list(j["top"]["files"])}
@@ -630,17 +684,36 @@ def run_e2e(ctx, host, nrelease, release, tooltags):
             tgt["files"] = sorted([x for x in tgt["files"] if x["name"] != f["name"]] + [f], key=lambda x: x["name"].encode())
         return top, sub
 
-    def expect(top, sub, plat):
-        """the property sentence for a layout: (magefiles/ used?, {file name: target name} of the magefiles)"""
+    def expect(top, sub, plat, top_named=False):
+        """the property sentence for a layout: (magefiles/ used?, {file name: target name} of the magefiles).
+        top_named: mage was pointed at a directory SPELLED .../magefiles (-d), which is then a magefiles directory itself"""
         use_sub = sub is not None and not exp(top, plat, False)
         d = sub if use_sub else top
-        want = exp(d, plat, use_sub)
+        want = exp(d, plat, use_sub or top_named)
         return use_sub, {f["name"]: f["ident"].lower() for f in d["files"] if f["name"] in want}
 
-    def mage(proj, cache, args, env, timeout=180):
-        r = mg.run(proj, args, env=env, timeout=timeout, cache=cache)
+    def mage(proj, cache, args, env, timeout=180, j=None, log=None):
+        """runs mage on the project the way the job says (cwd / cwd through a link with $PWD / -d), with the recording go
+        wrapper when the job asks for it; returns the run record with r["go_calls"] = [[subcommand, GOOS, GOARCH, CGO_ENABLED], ...]"""
+        cwd, pre, env = proj, [], dict(env)
+        via = (j or {}).get("via")
+        if via:
+            kind, path = via[0], os.path.join(os.path.dirname(proj), via[1])      # a sibling entry: a link to the project, or its spelled name
+            if kind == "cwd":
+                cwd = path
+                env["PWD"] = path
+            else:
+                cwd, pre = mg.root, ["-d", path]
+        if j and j.get("gocmd"):
+            pre = ["-gocmd", gowrap] + pre
+            env["C10_GOLOG"] = log
+            env["C10_GOPLAN"] = j.get("goplan", "")
+        r = mg.run(cwd, pre + args, env=env, timeout=timeout, cache=cache)
         if r["rc"] != 0:          # the go tool occasionally fails under heavy load (build cache races): once more before believing it
-            r = mg.run(proj, args, env=env, timeout=timeout, cache=cache)
+            r = mg.run(cwd, pre + args, env=env, timeout=timeout, cache=cache)
+        r["go_calls"] = []
+        if log and os.path.exists(log):
+            r["go_calls"] = [l.split("\t") for l in open(log).read().splitlines() if l.strip()]
         return r
 
     def run_job(j):
@@ -650,10 +723,33 @@ def run_e2e(ctx, host, nrelease, release, tooltags):
             for f in j["sub"]["files"]:
                 files["magefiles/" + f["name"]] = f["text"]
         with lock:
-            proj = mg.project(files, probe=False)
-        cache = proj + ".cache"
+            mg.n += 1
+            base = "p%04d" % mg.n
+        links = j.get("links") or {}
+        # the project's REAL directory may itself be named magefiles (reached through a link or spelled with -d)
+        proj = mg.project(files, name=base + "/magefiles" if links.get("real_name_magefiles") else base + "/proj", probe=False)
+        outside = os.path.join(os.path.dirname(proj), "elsewhere")
+        if links.get("sub"):          # proj/magefiles becomes a symlink to a directory outside the project
+            tgt = os.path.join(outside, "common", "buildscripts") if links["sub"] == "other-name" else os.path.join(outside, "shared", "magefiles")
+            os.makedirs(os.path.dirname(tgt), exist_ok=True)
+            shutil.move(os.path.join(proj, "magefiles"), tgt)
+            shutil.copy(os.path.join(proj, "go.mod"), os.path.join(tgt, "go.mod"))
+            os.symlink(tgt, os.path.join(proj, "magefiles"))
+        for rel in links.get("files", []):      # a magefile that is a symlink to a file kept elsewhere
+            os.makedirs(os.path.join(outside, "files"), exist_ok=True)
+            dst = os.path.join(outside, "files", rel.replace("/", "_") + ".txt")
+            shutil.move(os.path.join(proj, rel), dst)
+            os.symlink(dst, os.path.join(proj, rel))
+        if links.get("project_link"):           # the project reached through a link with another name
+            os.symlink(proj, os.path.join(os.path.dirname(proj), links["project_link"]))
+        cache = os.path.join(os.path.dirname(proj), "cache")
         os.makedirs(cache, exist_ok=True)
         res = {"proj": proj, "steps": []}
+        logn = [0]
+        def golog():
+            logn[0] += 1
+            return os.path.join(os.path.dirname(proj), "golog.%d" % logn[0])
+        top_named = bool(j.get("top_named"))
         if j["kind"] == "compile":
             out = os.path.join(proj, "out.bin")
             args = ["-compile", out]
@@ -661,7 +757,7 @@ def run_e2e(ctx, host, nrelease, release, tooltags):
                 args += ["-goos", j["flags"][0]]
             if j["flags"][1]:
                 args += ["-goarch", j["flags"][1]]
-            r = mage(proj, cache, args, j["env"], timeout=600)
+            r = mage(proj, cache, args, j["env"], timeout=600, j=j, log=golog())
             # which files were compiled in: the binary's function-name table holds main.<Target> of every file used
             # (the targets are //go:noinline and reachable from the generated main); no wording of any message is read
             blob = open(out, "rb").read() if os.path.exists(out) else b""
@@ -669,7 +765,7 @@ def run_e2e(ctx, host, nrelease, release, tooltags):
                 return sorted(f["name"] for f in d["files"] if re.search(rb"main\." + f["ident"].encode() + rb"(?![A-Za-z0-9_])", blob))
             res["steps"].append({"step": "compile", "rc": r["rc"], "files": compiled(j["top"]) if blob else None,
                                  "subfiles": compiled(j["sub"]) if blob and j["sub"] is not None else [], "magic": blob[:4].hex() if blob else None,
-                                 "raw": {"stdout": r["out"][-800:], "stderr": r["err"][-800:]}})
+                                 "go_calls": r["go_calls"], "raw": {"stdout": r["out"][-800:], "stderr": r["err"][-800:]}})
             return res
         nmut = 0
         for st in j["history"]:
@@ -679,17 +775,18 @@ def run_e2e(ctx, host, nrelease, release, tooltags):
                 with open(os.path.join(proj, "magefiles" if where == "sub" else "", f["name"]), "w") as fh:
                     fh.write(f["text"])
             top, sub = layout_at(j, nmut)
-            use_sub, want = expect(top, sub, j["plat"])
+            use_sub, want = expect(top, sub, j["plat"], top_named)
             env = dict(j["env"], **st.get("env", {}))
             o = {"step": st["name"], "mutations": nmut}
             if st["what"] == "list" or not want:
-                r = mage(proj, cache, st.get("flags", []) + ["-l"], env)
+                r = mage(proj, cache, st.get("flags", []) + ["-l"], env, j=j, log=golog())
                 o["targets"] = sorted(projlib.parse_list(r["out"])["targets"])
             else:
-                r = mage(proj, cache, st.get("flags", []) + [sorted(want.values())[0]], env)
+                r = mage(proj, cache, st.get("flags", []) + [sorted(want.values())[0]], env, j=j, log=golog())
                 m = re.search(r"^WD (.*)$", r["out"], re.M)
                 o["wd"] = os.path.realpath(m.group(1)) if m else None
             o["rc"] = r["rc"]
+            o["go_calls"] = r["go_calls"]
             o["warn"] = bool(r["err"].strip())          # some warning on stderr; its wording is not read
             o["raw"] = {"stdout": r["out"][-800:], "stderr": r["err"][-800:]}   # kept in the replay file for diagnosis only
             res["steps"].append(o)
@@ -701,9 +798,19 @@ def run_e2e(ctx, host, nrelease, release, tooltags):
         for o in res["steps"]:
             top, sub = layout_at(j, o.get("mutations", 0))
             plat = j["plat"]
-            use_sub, want = expect(top, sub, plat)
+            top_named = bool(j.get("top_named"))
+            use_sub, want = expect(top, sub, plat, top_named)
             where = "magefiles subdirectory" if use_sub else "directory"
             at = "step %s: " % o["step"] if len(res["steps"]) > 1 else ""
+            # every go command of the invocation: `build` must be given exactly the platform the files were listed for (the
+            # flags, else the host); no other go command may be given a GOOS/GOARCH that is neither that platform nor the host
+            for call in o.get("go_calls", []):
+                if len(call) < 3:
+                    continue
+                got = (call[1], call[2])
+                if (call[0] == "build" and got != tuple(plat)) or (call[0] != "build" and got not in (tuple(plat), tuple(host))):
+                    return at + "`go %s` was run with GOOS=%s GOARCH=%s; the magefiles were listed for %s/%s (flags %s, caller's environment %s); all go calls: %s" % (
+                        call[0], call[1], call[2], plat[0], plat[1], list(j["flags"]), j["env"], [c[:3] for c in o["go_calls"]]), items
             if o["step"] == "compile":
                 if not want:
                     if o["rc"] == 0:
@@ -719,7 +826,7 @@ def run_e2e(ctx, host, nrelease, release, tooltags):
                         flags, plat[0], plat[1], o["files"], o["subfiles"], sorted(want), where), items
                 if not (o["magic"] or "").startswith(magic):
                     return at + "-compile %s produced a file starting with %s (expected %s)" % (flags, o["magic"], magic), items
-                items.append((top, sub, bool(o["subfiles"]) and not o["files"], o["subfiles"] if use_sub else o["files"]))
+                items.append((top, sub, bool(o["subfiles"]) and not o["files"], o["subfiles"] if use_sub else o["files"], top_named))
                 continue
             if not want:
                 # neither the directory nor a magefiles subdirectory provides a magefile: mage must say so
@@ -734,7 +841,7 @@ def run_e2e(ctx, host, nrelease, release, tooltags):
                 if sub is not None and not use_sub and not o["warn"]:
                     return at + "no warning although both the directory and its magefiles subdirectory hold magefiles", items
                 d = sub if use_sub else top
-                items.append((top, sub, use_sub, sorted(f["name"] for f in d["files"] if f["ident"].lower() in o["targets"])))
+                items.append((top, sub, use_sub, sorted(f["name"] for f in d["files"] if f["ident"].lower() in o["targets"]), top_named))
             elif o["wd"] != os.path.realpath(res["proj"]):
                 return at + "target ran in %s, expected the %s %s" % (o["wd"], "parent of the magefiles directory" if use_sub else "directory", res["proj"]), items
         return None, items
@@ -747,6 +854,8 @@ def run_e2e(ctx, host, nrelease, release, tooltags):
             continue
         if j["kind"] == "compile":
             j["history"] = []
+        elif j["kind"] == "links":
+            j["history"] = [{"name": "list", "what": "list"}, {"name": "run", "what": "run"}, {"name": "run-again-hashfast", "what": "run", "env": HF}]
         elif j["kind"] != "layout":
             j["history"] = [{"name": "list", "what": "list"}, {"name": "run", "what": "run"}]
         else:
@@ -774,7 +883,7 @@ def run_e2e(ctx, host, nrelease, release, tooltags):
     for j, res in zip(jobs, results):
         ctx.add("e2e_" + j["kind"])
         bad, items = judge(j, res)
-        case = {"e2e": {k: j[k] for k in ("kind", "top", "sub", "env", "plat", "flags", "history", "mutations") if k in j}, "observed": res["steps"], "project": res["proj"],
+        case = {"e2e": {k: j[k] for k in ("kind", "top", "sub", "env", "plat", "flags", "history", "mutations", "links", "via", "top_named", "gocmd", "goplan") if k in j}, "observed": res["steps"], "project": res["proj"],
                 "repo": REPO}
         if bad:
             # a deterministic defect shows again in a fresh copy of the project (new directory, new cache); a one-off does not
@@ -789,11 +898,11 @@ def run_e2e(ctx, host, nrelease, release, tooltags):
                 unconfirmed.append({"clause": bad, "case": case})
                 ctx.log("UNCONFIRMED end-to-end deviation (not reproduced in 2 fresh repetitions): " + bad)
             continue
-        for top, sub, used_sub, names in items:
-            ditems.append("{| d_top := %s; d_sub := %s; d_has_sub := %s; d_top_named := false; d_hostos := %s; d_hostarch := %s; d_cgo := false; d_release := %s; d_tool := %s; "
+        for top, sub, used_sub, names, top_named in items:
+            ditems.append("{| d_top := %s; d_sub := %s; d_has_sub := %s; d_top_named := %s; d_hostos := %s; d_hostarch := %s; d_cgo := false; d_release := %s; d_tool := %s; "
                           "d_goos := %s; d_goarch := %s; d_obs := (%s, Some %s) |}" % (
                               coq_list([file_coq(f) for f in top["files"]]), coq_list([file_coq(f) for f in (sub or {"files": []})["files"]]),
-                              coq_bool(sub is not None), coq_str(host[0]), coq_str(host[1]), coq_list([coq_str(t) for t in release]),
+                              coq_bool(sub is not None), coq_bool(top_named), coq_str(host[0]), coq_str(host[1]), coq_list([coq_str(t) for t in release]),
                               coq_list([coq_str(t) for t in tooltags]), coq_str(j["flags"][0]), coq_str(j["flags"][1]), coq_bool(used_sub),
                               coq_list([coq_str(n) for n in sorted(names, key=lambda s: s.encode())])))
             dmeta.append(case)
